@@ -62,6 +62,8 @@ enum Q {
     Selection { limit: u32 },
     BranchCut { sel: Sel },
     HandoffCut { sel: Sel },
+    /// the context compiled for a run anchored at the i-th message (u64::MAX: the newest) — oracle only
+    Compile { msg: u64 },
 }
 #[derive(Clone, Debug, Serialize, Deserialize, PartialEq)]
 enum Sel {
@@ -348,6 +350,20 @@ fn run_query(root: &Path, id: &str, messages: &[String], q: &Q) -> Result<Value,
             )
             .map(|r| strip_volatile(serde_json::to_value(r).unwrap())),
         Q::Selection { limit } => st.context_selection_status_v1(id, ContextSelectionStatusV1Request { limit: Some(*limit) }).map(|r| serde_json::to_value(r).unwrap()),
+        Q::Compile { msg } => {
+            if messages.is_empty() {
+                return Err("no message".into());
+            }
+            let m = if *msg == u64::MAX { messages.last().unwrap().clone() } else { messages[(*msg as usize) % messages.len()].clone() };
+            let link = ContinuityRunLink { continuity_id: id.to_string(), message_id: m, actor_id: "user".into(), origin: "cli".into() };
+            ripd::verif::compile_context_for_run(st, &o.log, &root.join("data").join("snapshots"), &link, "run-compile")
+                .and_then(|(decision, artifact, from_seq, from_message_id)| {
+                    // the artifact id is random: compare the stored bundle itself
+                    let blob = root.join("workspace").join(".rip").join("artifacts").join("blobs").join(&artifact);
+                    let bundle = std::fs::read(&blob).ok().and_then(|b| serde_json::from_slice::<Value>(&b).ok()).ok_or_else(|| format!("bundle artifact unreadable"))?;
+                    Ok(json!({"decision": decision, "bundle": bundle, "from_seq": from_seq, "from_message_id": from_message_id}))
+                })
+        }
         Q::BranchCut { sel } | Q::HandoffCut { sel } => {
             let (mid, seq) = match sel {
                 Sel::Head => (None, None),
@@ -574,6 +590,7 @@ fn classify_violation(c: &Coherence, fast: &Ans, q: &Q) -> String {
         Q::Selection { .. } => "selection_status",
         Q::BranchCut { .. } => "branch_cut",
         Q::HandoffCut { .. } => "handoff_cut",
+        Q::Compile { .. } => "compile",
     };
     if *fast == Ans::Hang {
         return format!("hang:{qn}");
@@ -652,6 +669,7 @@ fn enc_answer(a: &Abs, q: &Q, ans: &Ans) -> Vec<Vec<u64>> {
             vec![out]
         }
         Q::CutPoints { .. } => vec![enc_cut_points(a, v)],
+        Q::Compile { .. } => vec![],
         Q::CompactionStatus { .. } => {
             // [QStatusTail; QInflight; QLatestCkpt]
             let mut t = vec![];
@@ -713,6 +731,7 @@ fn coq_queries(q: &Q) -> Vec<(&'static str, bool)> {
         // fast model applies only when the derived caches are intact (decided per case)
         Q::CompactionStatus { .. } => vec![("statustail", true), ("inflight", true), ("latestckpt", false)],
         Q::BranchCut { .. } | Q::HandoffCut { .. } => vec![("cut", true)],
+        Q::Compile { .. } => vec![],
     }
 }
 fn coq_query_term(q: &Q, which: &str, a: &Abs, messages: &[String]) -> String {
@@ -726,6 +745,7 @@ fn coq_query_term(q: &Q, which: &str, a: &Abs, messages: &[String]) -> String {
         (Q::CompactionStatus { .. }, "inflight") => "QInflight".into(),
         (Q::CompactionStatus { .. }, _) => "QLatestCkpt".into(),
         (Q::BranchCut { sel }, _) | (Q::HandoffCut { sel }, _) => format!("(QCut {})", coq_sel(sel, a, messages)),
+        (Q::Compile { .. }, _) => unreachable!("compile has no model part"),
     }
 }
 
@@ -778,6 +798,8 @@ fn gen_queries(r: &mut Rng, nmsg: u64) -> Vec<Q> {
         Q::Selection { limit: *r.pick(&[1u32, 2, 3, 10, 0]) },
         Q::BranchCut { sel: match r.below(3) { 0 => Sel::Head, 1 => Sel::Seq(r.below(nmsg * 2 + 3)), _ => Sel::Msg(r.below(nmsg.max(1))) } },
         Q::HandoffCut { sel: match r.below(3) { 0 => Sel::Head, 1 => Sel::Seq(r.below(nmsg * 2 + 3)), _ => Sel::Msg(r.below(nmsg.max(1))) } },
+        Q::Compile { msg: u64::MAX },
+        Q::Compile { msg: r.below(nmsg.max(1)) },
     ]
 }
 fn gen_case(r: &mut Rng, i: u64) -> Case {
@@ -813,6 +835,8 @@ fn long_cases() -> Vec<Case> {
             Q::Rotate { p: None, e: None, m: None },
             Q::Selection { limit: 10 },
             Q::CutPoints { stride: 3, limit: 2 },
+            Q::Compile { msg: u64::MAX },
+            Q::Compile { msg: 0 },
         ]
     };
     // (a) > 10 000 small frames: one early cursor + decision + 3 messages, then 10 050 side-effect frames
